@@ -47,6 +47,14 @@ CHECKS['C15'] = dict(
     note='Trusted: CrossHair+z3; message-level FakeAdapter (framing is C13), queue/KeyList/ScriptTimeout stubs, the specification automaton in props/C15.py. Outside: >64 consecutive live ids, real RSA, thread interleavings (C14).',
     technique='symbolic execution (CrossHair/z3) vs specification automaton; inductive step for id allocation',
     design='3/C15')
+CHECKS['C17'] = dict(
+    category='fault_enumeration',
+    text='Bounded symbolic execution (CrossHair/z3) of the real OutputToFile/OutputToJSON/Atomic/atomic_write over an in-memory file-system model: fault kind and index (serializer after k chunks, k-th write, close/flush) '
+         'and the crash point (FS operation after which nothing reaches the disk) are symbolic; after every run the destination is absent (only if it was), the old complete record, or the complete new serialization; '
+         'fault-free runs publish exactly the serialization under the formatted name.',
+    note='Trusted: CrossHair+z3 and the MemFS model (buffered writes, atomic rename on one file system, non-atomic copyfile). Outside: real kernel/power-loss ordering, staging dir on another file system.',
+    technique='symbolic execution (CrossHair/z3) over symbolic fault/crash indices on a file-system model',
+    design='3/C17')
 NA_REASON = {}
 DEFAULT_NA = 'check not built yet in this round (work in progress; see DESIGN.md section 6 for the plan)'
 
